@@ -3,6 +3,7 @@ package main
 import (
 	"crypto/ed25519"
 	"fmt"
+	"net"
 	"reflect"
 	"strings"
 	"time"
@@ -150,6 +151,22 @@ func runC16(c *Ctx) {
 		&dns.EDNS0_EDE{InfoCode: 1, ExtraText: "x"},
 	}
 	hand = append(hand, opt)
+	// addresses with bits set beyond the prefix: the packers mask them on the way out, the record keeps them
+	hand = append(hand,
+		&dns.APL{Hdr: dns.RR_Header{Name: "a.", Rrtype: dns.TypeAPL, Class: 1}, Prefixes: []dns.APLPrefix{
+			{Network: net.IPNet{IP: net.IP{10, 255, 0, 0}, Mask: net.CIDRMask(12, 32)}},
+			{Negation: true, Network: net.IPNet{IP: net.IP{192, 168, 77, 255}, Mask: net.CIDRMask(17, 32)}},
+			{Network: net.IPNet{IP: net.ParseIP("2001:db8:ffff:ffff::1").To16(), Mask: net.CIDRMask(35, 128)}}}},
+		&dns.OPT{Hdr: dns.RR_Header{Name: ".", Rrtype: dns.TypeOPT}, Option: []dns.EDNS0{
+			&dns.EDNS0_SUBNET{Code: dns.EDNS0SUBNET, Family: 1, SourceNetmask: 20, Address: net.IP{10, 9, 255, 7}},
+			&dns.EDNS0_SUBNET{Code: dns.EDNS0SUBNET, Family: 2, SourceNetmask: 41, Address: net.ParseIP("2001:db8:ffff:ffff:ffff::").To16()}}})
+	// the same shapes as they come off the wire (the decoder accepts host bits inside the last octet)
+	for _, rd := range [][]byte{{0, 1, 12, 2, 10, 255}, {0, 1, 17, 0x83, 192, 168, 255}, {0, 2, 35, 5, 0x20, 0x01, 0x0d, 0xb8, 0xff}} {
+		w := assembleRR([][]byte{[]byte("a")}, dns.TypeAPL, 1, 60, rd)
+		if rr, _, err := dns.UnpackRR(w, 0); err == nil {
+			hand = append(hand, rr)
+		}
+	}
 	for _, rr := range hand {
 		c16RR(c, "hand-built", rr, "go="+fmt.Sprintf("%T", rr))
 	}
